@@ -14,7 +14,8 @@ Geoms == << [site |-> <<3, 1>>, off |-> 1, ovh |-> 2],      \* GA N ^ NN _
             [site |-> <<3>>,    off |-> 1, ovh |-> 1],      \* G  N ^ N _
             [site |-> <<2, 1>>, off |-> 2, ovh |-> 1],      \* CA NN ^ N _
             [site |-> <<3, 1>>, off |-> 1, ovh |-> 3],      \* GA N ^ NNN _
-            [site |-> <<3, 3, 1>>, off |-> 1, ovh |-> 2] >> \* GGA N ^ NN _
+            [site |-> <<3, 3, 1>>, off |-> 1, ovh |-> 2],   \* GGA N ^ NN _
+            [site |-> <<2, 12>>, off |-> 1, ovh |-> 2] >>   \* CD N ^ NN _   (growth: an ambiguity code in the site, as LpnPI CCDG)
 Enz == Geoms[G]
 ModToks == GenericModule(Enz)
 VecToks == GenericVector(Enz)
@@ -27,20 +28,22 @@ PSet  == IF Scale = 1 THEN {<< >>, <<4>>} ELSE {<< >>, <<4>>, <<1, 3>>}
 VBSet == IF Scale = 1 THEN {<<1, 2>>, <<1, 4, 3>>} ELSE {<<1, 2>>, <<2, 1>>, <<1, 4, 3>>, <<4, 4, 2, 1>>}
 Spacer == [i \in 1..Enz.off |-> 1]
 
-MkMod(o5, t, o3, b) == Enz.site \o Spacer \o o5 \o t \o o3 \o Spacer \o RC(Enz.site) \o b
-MkVec(oD, p, oU, b) == oD \o Spacer \o RC(Enz.site) \o p \o Enz.site \o Spacer \o oU \o b
+\* the concrete spellings of the recognition site (the site itself unless it contains ambiguity codes)
+SiteInst == {x \in Words(Nuc, Len(Enz.site)) : \A i \in 1..Len(x) : x[i] \in IUPAC(Enz.site[i])}
+MkMod(sF, sR, o5, t, o3, b) == sF \o Spacer \o o5 \o t \o o3 \o Spacer \o RC(sR) \o b
+MkVec(sF, sR, oD, p, oU, b) == oD \o Spacer \o RC(sR) \o p \o sF \o Spacer \o oU \o b
 
 VARIABLES ph, fr, w, mut
 vars == <<ph, fr, w, mut>>
 
 Init == ph = "init" /\ fr = << >> /\ w = << >> /\ mut = FALSE
 ChooseFrame == /\ ph = "init"
-               /\ \E k \in {"module", "vector"}, o5 \in O5Set, o3 \in O3Set : fr' = <<k, o5, o3>>
+               /\ \E k \in {"module", "vector"}, o5 \in O5Set, o3 \in O3Set, sF \in SiteInst, sR \in SiteInst : fr' = <<k, o5, o3, sF, sR>>
                /\ ph' = "frame" /\ UNCHANGED <<w, mut>>
 ChooseFill == /\ ph = "frame"
               /\ IF fr[1] = "module"
-                 THEN \E t \in TSet, b \in BSet : w' = MkMod(fr[2], t, fr[3], b)
-                 ELSE \E p \in PSet, b \in VBSet : w' = MkVec(fr[2], p, fr[3], b)
+                 THEN \E t \in TSet, b \in BSet : w' = MkMod(fr[4], fr[5], fr[2], t, fr[3], b)
+                 ELSE \E p \in PSet, b \in VBSet : w' = MkVec(fr[4], fr[5], fr[2], p, fr[3], b)
               /\ ph' = "rot" /\ UNCHANGED <<fr, mut>>
 Rotate == /\ ph = "rot" /\ w' = Rot(w, 1) /\ UNCHANGED <<ph, fr, mut>>
 \* not well-formed records: one point mutation anywhere (Scale 2 only, to keep the quick world small)
